@@ -375,7 +375,9 @@ class ProcessRunner(Runner, ABC):
         # Deliver the records logged by the tasks that have just finished.
         self._consume_log_queue()
         for future in done:
-            task = self.future_to_task[future]
+            # Forget the future before its outcome is yielded: if the
+            # consumer is interrupted, this generator is never resumed.
+            task = self.future_to_task.pop(future)
             if future.cancelled:
                 continue
             try:
@@ -385,11 +387,6 @@ class ProcessRunner(Runner, ABC):
             else:
                 self.results_map[task] = task_result
                 yield (task, task_result.meta)
-        self.future_to_task = {
-            future: self.future_to_task[future]
-            for future in self.future_to_task
-            if future not in done
-        }
 
     def cancel(self) -> None:
         self.executor.cancel()
